@@ -44,3 +44,21 @@ claim("C10", "E1-kvmodel", "exploration", "twin-run differential monitor: state 
       "two multistores (cache on/off) fed identical histories; at every height in the cache window point reads (nil-ness included), existence checks and forward/reverse iteration over generated ranges must agree; three genuine defects found this way were repaired by fix: commits in /repo",
       MSNOTE, "DESIGN.md §4 C10")
 ENGINES.append({"name": "E2-faultdb", "path": "internal/faultdb", "serves_properties": ["C07"], "kind_free_text": "fault injection: dbm.DB wrapper numbering every durable write; snapshot/cut after event k"})
+
+E3NOTE = ("trusted: Go runtime; the synthetic ABCI driver (internal/chain: fabricated Tendermint blocks, validator-set delay emulation, "
+          "stub Tendermint client) reproducing what the application observes from Tendermint; decoders of the repository used only to read persisted records; "
+          "one node per OS process; coverage = the generated histories listed in the evidence (tx kinds x outcomes, state events)")
+ENGINES.append({"name": "E3-chain", "path": "internal/chain + internal/monitor", "serves_properties": ["C17","C19","C20","C21","C22"],
+                "kind_free_text": "runtime monitoring of the real application: generated block histories executed through ABCI in child processes, invariants evaluated on the persisted stores after every Commit"})
+for _id, _what in [("C17", "supply == sum of all balances, canonical coin sets, and supply moves only with a visible cause (proof, slash, DAO burn)"),
+                   ("C19", "node staking pool balance == sum of staked+unstaking node tokens"),
+                   ("C20", "application staking pool balance == sum of staked+unstaking application tokens"),
+                   ("C21", "staked-by-power index, per-chain index and unstaking queue agree exactly with node records"),
+                   ("C22", "consensus set accumulated from InitChain + EndBlock validator updates == top staked unjailed nodes (size, membership, powers, zero-power removals)")]:
+    claim(_id, "E3-chain", "exploration", "state invariant monitored on the persisted stores after every Commit of generated chaos histories (real app via ABCI, child process per node)",
+          "generated multi-actor block histories (stakes, edits, unstakes, jailing via missed votes, double-sign evidence, DAO actions, parameter changes, time jumps) run on the real application; after every commit: " + _what + "; held-on-observed",
+          E3NOTE, "DESIGN.md §4 " + _id)
+claim("C33", "E6-ref", "exploration", "differential runtime monitor vs independent reference session selector over generated node populations; cross-process determinism",
+      "types.NewSession driven with a stub keeper over tens of thousands of generated populations (jailed, over-chained, missing, chain-less nodes; heights around the max-chains activation); result compared with an independently written selector (own SHA3), distinctness/count/eligibility/error-iff asserted, repeated in a second OS process; held-on-observed",
+      "trusted: Go runtime, the reference selector in internal/ref/sessionref (imports nothing from pocket-core)", "DESIGN.md §4 C33")
+ENGINES.append({"name": "E6-ref", "path": "internal/ref/*", "serves_properties": ["C33"], "kind_free_text": "independent reference implementations used as oracles for pure functions"})
